@@ -17,7 +17,7 @@ RULE = ("every sequence over the alphabet {connect-ok, connect via public-key ap
         "non-trivial = contains at least one operation attempted while disconnected after the first symbol; distinct = distinct sequences")
 ASSUMPTIONS = ["when both an empty device path and a missing connection apply, either documented exception is accepted"]
 SHARDS = {"quick": 8, "thorough": 16}
-TIME_BUDGET = {"quick": 60, "thorough": 900}
+TIME_BUDGET = {"quick": 300, "thorough": 1800}
 FLOORS = {"quick": {"steps_disconnected": 5000, "steps_connected": 1500, "available_samples_during_connect": 2000, "distinct": 3000},
           "thorough": {"steps_disconnected": 100000, "steps_connected": 60000}}
 EXHAUSTIVE = {"quick": True, "thorough": True}
